@@ -129,7 +129,11 @@ pub enum Kind {
     Unchecked,
     /// will_return_boolean(v)   (class B only)
     Bool(bool),
+    /// fake!(..., times: n) + will_execute   (class U only): scope exit panics unless exactly n calls were made
+    Times(u8),
 }
+
+pub static TIMES_H: [std::sync::atomic::AtomicUsize; 4] = [const { std::sync::atomic::AtomicUsize::new(0) }; 4];
 
 pub struct Target {
     pub name: String,
@@ -302,6 +306,17 @@ pub fn install(inj: &mut InjectorPP, t: &Target, kind: Kind, k: usize) -> Instal
             inj.when_called((t.checked)()).will_execute(pair);
             Installed { value: val, dest: None }
         }
+        (Class::U, Kind::Times(n)) => {
+            TIMES_H[k].store(n as usize, SeqCst);
+            let (pair, val) = match k {
+                0 => (injectorpp::fake!(func_type: fn() -> u64, returns: black_box(4000), times: TIMES_H[0].load(SeqCst)), 4000),
+                1 => (injectorpp::fake!(func_type: fn() -> u64, returns: black_box(4001), times: TIMES_H[1].load(SeqCst)), 4001),
+                2 => (injectorpp::fake!(func_type: fn() -> u64, returns: black_box(4002), times: TIMES_H[2].load(SeqCst)), 4002),
+                _ => (injectorpp::fake!(func_type: fn() -> u64, returns: black_box(4003), times: TIMES_H[3].load(SeqCst)), 4003),
+            };
+            inj.when_called((t.checked)()).will_execute(pair);
+            Installed { value: val, dest: None }
+        }
         (Class::U, Kind::Unchecked) | (Class::U, Kind::Bool(_)) => {
             let (val, dest) = match k % 2 {
                 0 => (1000, f_u0 as fn() -> u64 as usize),
@@ -318,7 +333,8 @@ pub fn install(inj: &mut InjectorPP, t: &Target, kind: Kind, k: usize) -> Instal
             inj.when_called((t.checked)()).will_return_boolean(v);
             Installed { value: v as u64, dest: None }
         }
-        (Class::B, Kind::Raw) | (Class::B, Kind::Unchecked) => {
+        (Class::B, Kind::Raw) | (Class::B, Kind::Unchecked) | (Class::B, Kind::Times(_)) => {
+            let kind = if matches!(kind, Kind::Times(_)) { Kind::Raw } else { kind };
             let v = k % 2 == 0;
             if kind == Kind::Raw {
                 let fp = if v { injectorpp::func!(fn (f_bt)() -> bool) } else { injectorpp::func!(fn (f_bf)() -> bool) };
@@ -395,6 +411,7 @@ pub fn install(inj: &mut InjectorPP, t: &Target, kind: Kind, k: usize) -> Instal
 pub fn legal_kinds(class: Class) -> Vec<Kind> {
     match class {
         Class::B => vec![Kind::Raw, Kind::Closure, Kind::FakeMacro, Kind::Unchecked, Kind::Bool(true), Kind::Bool(false)],
+        Class::U => vec![Kind::Raw, Kind::Closure, Kind::FakeMacro, Kind::Unchecked, Kind::Times(0), Kind::Times(1), Kind::Times(2)],
         _ => vec![Kind::Raw, Kind::Closure, Kind::FakeMacro, Kind::Unchecked],
     }
 }
